@@ -9,6 +9,10 @@ use crate::Emit;
 pub enum T {
     Id(&'static str),
     Int(i64),
+    /// a string literal: (source spelling, value)
+    Str(&'static str, &'static str),
+    /// a bytes literal: (source spelling, value)
+    Bytes(&'static str, &'static [u8]),
     Cond(Box<T>, Box<T>, Box<T>),
     Bin(&'static str, Box<T>, Box<T>),
     Not(Box<T>),
@@ -58,6 +62,8 @@ pub fn expected(t: &T) -> String {
             o
         }
         T::Int(i) => format!("(lit (int {}))", i),
+        T::Str(_, v) => format!("(lit {})", sx_str(v)),
+        T::Bytes(_, v) => format!("(lit (bytes{}))", v.iter().map(|b| format!(" {}", b)).collect::<String>()),
         T::Cond(c, a, b) => format!("(call {} none {} {} {})", sx_str("_?_:_"), expected(c), expected(a), expected(b)),
         T::Bin(op, a, b) => format!("(call {} none {} {})", sx_str(&op_name(op)), expected(a), expected(b)),
         T::Not(a) => format!("(call {} none {})", sx_str("!_"), expected(a)),
@@ -112,6 +118,7 @@ pub fn print_full(t: &T) -> String {
     match t {
         T::Id(n) => n.to_string(),
         T::Int(i) => format!("{}", i),
+        T::Str(src, _) | T::Bytes(src, _) => src.to_string(),
         T::Cond(c, a, b) => format!("{} ? {} : {}", p(c), p(a), p(b)),
         T::Bin(op, a, b) => format!("{} {} {}", p(a), op, p(b)),
         T::Not(a) => format!("!{}", p(a)),
@@ -137,6 +144,7 @@ pub fn print_min(t: &T) -> String {
     match t {
         T::Id(n) => n.to_string(),
         T::Int(i) => format!("{}", i),
+        T::Str(src, _) | T::Bytes(src, _) => src.to_string(),
         // condition and then-branch are conditionalOr; the else-branch is a full expr
         T::Cond(c, a, b) => format!("{} ? {} : {}", at(c, 2), at(a, 2), at(b, 1)),
         T::Bin(op, a, b) => {
@@ -238,7 +246,12 @@ fn random_tree(rng: &mut Rng, depth: u32) -> T {
         return match rng.below(5) {
             0 => T::Id("a"),
             1 => T::Id("bb"),
-            2 => T::Int(rng.range(0, 9)),
+            2 => match rng.below(4) {
+                0 => rng.pick(&[T::Str("'s'", "s"), T::Str("\"a\\n\\u00e9\"", "a\né"), T::Str("''", ""), T::Str("'\\x41\\101\\\\'", "AA\\"),
+                                 T::Str("\"it's\"", "it's"), T::Str("'\\U0001F600 é'", "😀 é")]).clone(),
+                1 => rng.pick(&[T::Bytes("b'ab'", b"ab"), T::Bytes("B\"\\xff\\377é\"", &[255, 255, 0xc3, 0xa9]), T::Bytes("b''", b"")]).clone(),
+                _ => T::Int(rng.range(0, 9)),
+            },
             3 => T::Int(-rng.range(1, 9)),
             _ => T::Id("x"),
         };
@@ -278,7 +291,7 @@ fn random_tree(rng: &mut Rng, depth: u32) -> T {
 
 fn ops(t: &T) -> u32 {
     match t {
-        T::Id(_) | T::Int(_) => 0,
+        T::Id(_) | T::Int(_) | T::Str(..) | T::Bytes(..) => 0,
         T::Cond(a, b, c) => 1 + ops(a) + ops(b) + ops(c),
         T::Bin(_, a, b) | T::Idx(a, b) => 1 + ops(a) + ops(b),
         T::Not(a) | T::Neg(a) | T::Sel(a, _) => 1 + ops(a),
@@ -300,6 +313,8 @@ fn st_wire(t: &T, full: bool) -> Option<String> {
         T::Id(n) => format!("(id {})", sx_str(n)),
         T::Cond(c, a, b) => format!("(cond {} {} {})", sub(c)?, sub(a)?, sub(b)?),
         T::Int(i) if *i >= 0 => format!("(lint {})", i),
+        T::Str(src, v) => format!("(lstr {} {})", sx_str(src), sx_str(v)),
+        T::Bytes(src, v) => format!("(lbytes {} (str{}))", sx_str(src), v.iter().map(|b| format!(" {}", b)).collect::<String>()),
         T::Not(a) => format!("(not 0 {})", sub(a)?),
         // '-' directly before a number would belong to the literal: print_min parenthesises it
         T::Neg(a) if !full && starts_with_number(a) => format!("(neg 0 (paren {}))", st_wire(a, full)?),
